@@ -185,6 +185,10 @@ func (g *GcsEmu) handleGcsCompose(ctx context.Context, baseUrl HttpBaseUrl, w ht
 		g.gapiError(w, http.StatusBadRequest, "bad compose request")
 		return
 	}
+	if req.Destination == nil {
+		// no destination metadata given: compose with defaults
+		req.Destination = &storage.Object{}
+	}
 	// Get the composed object name from the path
 	parts := strings.Split(object, "/compose")
 	if len(parts) != 2 {
